@@ -2,11 +2,12 @@
 """Run behaviour-preserving changes through the checks; any alarm is a false alarm to investigate.
   benignmatrix.py <patchdir> [props...]      (default: all seven checks)"""
 import json, os, subprocess, sys
+HERE = os.path.dirname(os.path.dirname(os.path.abspath(__file__)))
 d = sys.argv[1].rstrip("/")
 props = sys.argv[2:] or ["C06", "C08", "C09", "C16", "C17", "C19", "C20"]
 res = {}
 for p in props:
-    r = subprocess.run(["/verif/tools/evalseed.py", os.path.join(d, "patch.diff"), p], text=True, stdout=subprocess.PIPE, stderr=subprocess.STDOUT)
+    r = subprocess.run([os.path.join(HERE, "tools", "evalseed.py"), os.path.join(d, "patch.diff"), p], text=True, stdout=subprocess.PIPE, stderr=subprocess.STDOUT)
     ex = [l for l in r.stdout.splitlines() if l.startswith("EXIT")]
     code = int(ex[-1].split()[1]) if ex else -1
     classes = sorted(set(l.strip().split(" seed=")[0] for l in r.stdout.splitlines() if l.strip().startswith("class=")))
